@@ -177,6 +177,12 @@ def meets_spec(op, code, spec, roles=None):
                 continue
             if got.get(k) != v:
                 return False, f"file {k}: expected {v}, got {got.get(k)}"
+        if roles is None or "cache" in roles:
+            # harness option gaps=g: every cache level is configured twice (max_gap None / Some(g)); the harness
+            # reports a twin that is missing or does not hold the same lines as its None level (C08: EVERY configured level)
+            for k, v in got.items():
+                if k.startswith("cgapdiff"):
+                    return False, f"the cache level with max_gap Some(..) and bucket size {k[8:].split('.')[0]} ({k.split('.', 1)[1]}) is {v}: not the lines of the level with the same bucket size"
         return True, ""
     if spec.startswith("~nlines"):
         kv = dict(x.split("=") for x in spec.split()[1:])
